@@ -190,7 +190,7 @@ def h_db(params, p0: int, p1: int, p2: int, t0: int, t1: int,
         if k < nsteps:
             assume(0 <= op < NOPS)
             assume(0 <= x < (len(PKGS) if k == 0 else 2))
-            assume(0 <= y < (16 if k == 0 else 4))
+            assume(0 <= y < (16 if (k == 0 or op == 0) else 4))
             if op not in (0, 5, 6, 7, 8):
                 assume(y == 0)
             if op in (9, 10, 11, 12):
@@ -237,12 +237,14 @@ def partitions(tier, seed):
     for lay in (("empty", "1x2", "2x1", "2lines", "shared-multi") if q else LAYOUTS):
         for gname, ops in groups:
             P.append(dict(name="step1/%s/%s" % (lay, gname), harness="h_db", params=dict(layout=lay, steps=1, ops=ops, free=1 if q else 3),
-                          budget=100 if q else 900,
+                          budget=80 if q else 900,
                           reach=(GROUP_REACH[gname] if lay != "empty" or gname == "ins" else []) + (["facet"] if gname == "derive" and lay in ("1x2", "1x1") else []),
                           bounds="layout %s, one operation of group %s, all name choices" % (lay, gname)))
-    for lay in (("1x1", "notags") if q else ("1x1", "1x2", "2x1", "notags", "2lines")):
+    for lay in (("1x1", "notags", "2x1") if q else ("1x1", "1x2", "2x1", "notags", "2lines", "shared-multi")):
         for gname, ops in ([("ins", [0]), ("filt-a", [1, 2, 3]), ("filt-b", [4, 5, 6]), ("choose", [7, 8]), ("facet", [9]), ("rev", [10, 11, 12, 13])]):
+            if q and lay == "2x1" and gname != "rev":
+                continue
             P.append(dict(name="step2/%s/%s-first" % (lay, gname), harness="h_db",
-                          params=dict(layout=lay, steps=2, first=ops, free=1 if q else 2), budget=100 if q else 1800, reach=[],
+                          params=dict(layout=lay, steps=2, first=ops, free=1 if q else 2), budget=70 if q else 1800, reach=[],
                           bounds="layout %s, two operations (first from the group, second any code with operands x<2, y<4)" % lay))
     return P
